@@ -181,6 +181,22 @@ func (s *Script) Match(data any) bool {
 	return 0 < len(stack)
 }
 
+// matchRoot is Match with root as the document a $ in the script refers to
+// (Match takes the data itself, which is what a filter applied on its own
+// has). Modify and Remove use it so that a filter in the last position of a
+// path selects what it selects in Get.
+func (s *Script) matchRoot(data, root any) bool {
+	stack := []any{}
+	if node, ok := data.(gen.Node); ok {
+		ns, _ := s.evalWithRoot(stack, gen.Array{node}, root)
+		stack, _ = ns.([]any)
+	} else {
+		ns, _ := s.evalWithRoot(stack, []any{data}, root)
+		stack, _ = ns.([]any)
+	}
+	return 0 < len(stack)
+}
+
 // Eval is primarily used by the Expr parser but is public for testing.
 func (s *Script) Eval(stack, data any) any {
 	ns, _ := s.evalWithRoot(stack, data, nil)
